@@ -70,7 +70,7 @@ pub enum TokenType {
     #[regex(r"[ \t]+")]
     Whitespace,
 
-    #[regex(r"\(\*(?:[^*]|\*[^\)])*\*\)", priority = 0)]
+    #[regex(r"\(\*[^*]*\*+(?:[^\)*][^*]*\*+)*\)", priority = 0)]
     // TODO The following is common but not valid. We want to recognize the token
     // so that we can generate meaningful errors.
     #[regex(r"//[^\r\n]*(\r\n|\n)?", priority = 0)]
